@@ -81,7 +81,7 @@ Lemma tune_src_defined : forall tid d terms v rows e, dflt_good d -> 0 <= terms 
   all_defined (tune_src ln_floor cube_log2 tid d terms v rows e) = true.
 Proof.
   intros tid d terms v rows e Hd Ht Hw. pose proof (all_defined_base d terms e Hd Ht Hw) as H0.
-  unfold tune_src.
+  unfold tune_src, tune_src_from.
   set (t0 := tune_base d terms e) in *.
   set (t1 := if layers e =? 0 then _ else t0).
   assert (H1 : all_defined t1 = true).
@@ -103,7 +103,7 @@ Lemma tune_src_needs : forall d terms v rows e s, dflt_good d ->
   strategy_needs_ok (KSrc s v rows) (tune_src ln_floor cube_log2 typeid_repaired d terms v rows e) = true.
 Proof.
   intros d terms v rows e s (_ & _ & _ & _ & _ & _ & _ & _ & _ & _ & _ & _ & Hds & Hva).
-  unfold tune_src, strategy_needs_ok.
+  unfold tune_src, tune_src_from, strategy_needs_ok.
   destruct v; auto.
   - (* dss *) destruct (dss e) eqn:Ed; simpl.
     + destruct (validation e); simpl; destruct (individuals e =? 0); destruct (layers e =? 0);
@@ -165,7 +165,7 @@ Proof.
       cbn [min_individuals set_min_individuals];
       rewrite ?Hm in *; unfold dz in *; destruct (min_individuals e =? 0) eqn:E; cbn [orb]; auto; lia.
   - pose proof (kept_other_base (dflt_of (strat_of (KSrc s v rows))) terms e) as Ho.
-    unfold tune_src. set (t0 := tune_base _ terms e) in *.
+    unfold tune_src, tune_src_from. set (t0 := tune_base _ terms e) in *.
     assert (Hmn : kept_min (KSrc s v rows) e t0 = true).
     { unfold kept_min. subst t0. unfold tune_base; cbn -[Z.add Z.div]. apply zkept_dz. }
     clearbody t0.
@@ -219,7 +219,7 @@ Proof.
   destruct k as [s|s|s v rows]; unfold tune; auto.
   - match goal with |- context [if ?c then _ else _] => destruct c eqn:C end; auto.
     unfold ranges_ok in *; simpl in *. lia.
-  - unfold tune_src.
+  - unfold tune_src, tune_src_from.
     set (t0 := tune_base _ terms e) in *.
     set (t1 := if layers e =? 0 then _ else t0).
     assert (H1 : ranges_ok t1 = true).
